@@ -74,6 +74,22 @@ impl Prop for C15 {
 			let codec = container::gen_codec_ext(rng, true, false);
 			return Scn { spec: container::gen_blob_spec(rng, codec), failed_finish: None };
 		}
+		if rng.chance(1, 400) {
+			// a LONG history (hundreds of calls, values that fail half-way among them; or more than 65 535 objects in
+			// one block): every call's return is still a crash point
+			let mut spec = container::gen_long_spec(rng, &profile, 140_000);
+			for op in spec.ops.iter_mut() {
+				if let Op::Many { n, pattern, .. } = op {
+					// (every snapshot is kept: bound the bytes held)
+					if matches!(*pattern, 2 | 3 | 6) {
+						*n = (*n).min(150);
+					} else if *n < 60_000 {
+						*n = (*n).min(500);
+					}
+				}
+			}
+			return Scn { spec, failed_finish: None };
+		}
 		Scn {
 			spec: container::gen_filespec(rng, &profile),
 			failed_finish: if rng.chance(1, 4) { Some(rng.below(3) as u32) } else { None },
@@ -82,8 +98,9 @@ impl Prop for C15 {
 
 	fn exec(&self, scn: &Scn) -> Outcome {
 		let mut out = Outcome::default();
-		let spec = &scn.spec;
-		container::count_scale(spec, &mut out);
+		container::count_scale(&scn.spec, &mut out);
+		let expanded = scn.spec.expanded();
+		let spec = &*expanded;
 		let env = Env::build(&spec.schema);
 		let sink = SimSink::all();
 		let mut snaps: Vec<Snap> = vec![];
